@@ -6,6 +6,7 @@ CONSTANTS
   SkipSet = {"sync", "jump", "unknown", "unknown0", "unknownL", "byte"}
   HdrSet = {"bbox", "filets"}
   RefPolicy = "any"
+  FillOnly = FALSE
   BulkN = 5
   RoleLimit = 250
   ExportHist = TRUE
